@@ -34,7 +34,7 @@ def main(tier):
                "Contract on the captured stdout of the real tabulate_experiments: for every experiment and every combination of levels of the selected factors "
                "the printed frequency equals the number of selected trials having that combination, and the printed percentage (parsed as float) equals "
                "100*frequency/number of selected trials within 1e-9 relative; every combination is printed exactly once. Inputs: seeded experiment lists over "
-               "1-3 factors with 2-3 levels (incl. trials whose value is '' or a level the selected Factor does not list), trial selections None / prefixes / strided / repeated indices, with a block and with an explicit factor list. "
+               "1-3 factors with 2-3 levels (incl. level names with spaces whose concatenations coincide across combinations, experiments of different lengths under the default selection, trials whose value is '' or a level the selected Factor does not list), trial selections None / prefixes / strided / repeated indices, with a block and with an explicit factor list. "
                "The contract requires at least one selected trial (a percentage of nothing is undefined).")
     ck.under_contract("sweetpea._internal.main:tabulate_experiments")
     rng = random.Random(seed())
@@ -42,18 +42,29 @@ def main(tier):
     n_cases = 300 if tier == "quick" else 3000
     for case in range(n_cases):
         nf = rng.randint(1, 3)
-        facs = [sp.Factor(f"f{i}", [f"l{i}{j}" for j in range(rng.randint(2, 3))]) for i in range(nf)]
+        if rng.random() < 0.3:
+            # level names with spaces whose concatenations collide across combinations: ("a", "b c") and ("a b", "c") both read "a b c"
+            pool = ["a", "a b", "b", "b c", "c", "a b c", "c a"]
+            facs = [sp.Factor(f"f{i}", rng.sample(pool, rng.randint(2, 3))) for i in range(nf)]
+        else:
+            facs = [sp.Factor(f"f{i}", [f"l{i}{j}" for j in range(rng.randint(2, 3))]) for i in range(nf)]
         T = rng.randint(1, 7)
         nexp = rng.randint(1, 3)
+        # experiments of different lengths (lists of experiments from different blocks): only with the default selection "all trials of that experiment"
+        ragged = rng.random() < 0.3
+        Ts = [rng.randint(1, 7) if ragged else T for _ in range(nexp)]
+        if len(set(Ts)) == 1:
+            Ts = [T] * nexp
         # values outside the tabulated level lists occur in practice: '' where a derived factor has no level (before its start, stride-skipped),
         # or levels that the caller's Factor does not list; such trials are selected trials that match no row
         extra = rng.choice([[], [], [""], ["other"], ["", "other"]])
-        exps = [{f.name: [rng.choice([l.name for l in f.levels] + extra) for _ in range(T)] for f in facs} for _ in range(nexp)]
-        if extra and rng.random() < 0.5 and T > 1:
+        exps = [{f.name: [rng.choice([l.name for l in f.levels] + extra) for _ in range(Te)] for f in facs} for Te in Ts]
+        if extra and rng.random() < 0.5:
             for e in exps:                      # the typical shape: a preamble trial without level
-                e[facs[0].name][0] = extra[0]
+                if len(e[facs[0].name]) > 1:
+                    e[facs[0].name][0] = extra[0]
         sel = rng.sample(facs, rng.randint(1, nf))
-        mode = rng.choice(["none", "prefix", "stride", "repeat"])
+        mode = "none" if ragged and len(set(Ts)) > 1 else rng.choice(["none", "prefix", "stride", "repeat"])
         trials = {"none": None, "prefix": list(range(rng.randint(1, T))), "stride": list(range(0, T, 2)), "repeat": [rng.randrange(T) for _ in range(rng.randint(1, 6))]}[mode]
         use_block = len(sel) == nf and rng.random() < 0.4
         buf = io.StringIO()
@@ -71,11 +82,11 @@ def main(tier):
             if fails <= 3:
                 ck.violation("C21.stdout", f"case:{mode}:raise", f"tabulate_experiments raised {e!r}", dict(experiments=exps, factors=[f.name for f in sel], trials=trials))
             continue
-        use = list(range(T)) if trials is None else trials
         bad = None
         if len(rows) != nexp:
             bad = f"{len(rows)} tables for {nexp} experiments"
-        for e, tab in zip(exps, rows):
+        for e, tab, Te in zip(exps, rows, Ts):
+            use = list(range(Te)) if trials is None else trials          # default: all trials of THAT experiment
             combos = list(itertools.product(*[[l.name for l in f.levels] for f in sel]))
             if sorted(r[0] for r in tab) != sorted(combos):
                 bad = f"combinations printed {sorted(r[0] for r in tab)[:3]}... expected each of {len(combos)} once"
@@ -90,7 +101,7 @@ def main(tier):
         if bad:
             fails += 1
             if fails <= 3:
-                ck.violation("C21.stdout", f"case:{mode}:{'block' if use_block else 'factors'}", f"tabulate_experiments: {bad}",
+                ck.violation("C21.stdout", f"case:{mode}:{'block' if use_block else 'factors'}:{'ragged' if len(set(Ts)) > 1 else 'equal'}", f"tabulate_experiments: {bad}",
                              dict(experiments=exps, factors=[f.name for f in sel], trials=trials, stdout=buf.getvalue()[:600]))
     ck.oblig("C21.stdout(all cases)", "E", "passed" if not fails else "failed", detail=f"{n_cases} seeded cases")
     ck.sample(dict(factors=2, trials="[0, 2, 4]", experiments=2, parsed_rows="(levels, frequency, percentage)"))
